@@ -107,9 +107,10 @@ func (op M2r) Op_instruction_verilog_footer(arch *Arch, flavor string) string {
 		result += "\tassign ram_wren = wr_int_ram;\n"
 	}
 
-	ramAddr := ""
+	// (a processor that reads its RAM and never writes it: nothing else drives the address)
+	ramAddr := "'b0"
 	if arch.HasAny([]string{"r2mri", "r2m"}) {
-		ramAddr += "addr_ram_to_mem"
+		ramAddr = "addr_ram_to_mem"
 	}
 
 	if arch.HasOp("m2r") {
